@@ -525,7 +525,7 @@ theorem held_reload_by_weight_updates :
 /-- What the fields of the machine mean together. -/
 def Inv (s : BS) : Prop :=
   (s.batch = true → s.enabled = false ∧ s.ready = true) ∧ (s.ready = false → s.enabled = false) ∧
-  (s.ready = true → s.batch = false → s.enabled = true) ∧ (s.batch = false → s.flag = false)
+  (s.ready = true → s.batch = false → s.enabled = true) ∧ (s.batch = false → s.flag = false ∧ s.updateAll = false)
 
 def init : BS := ⟨false, false, false, false, false⟩
 
@@ -535,10 +535,10 @@ def dirty (k : Kind) : Bool := k != Kind.endpoint false
 
 theorem inv_step (s : BS) (k : Kind) (qb qa : Nat) (h : Inv s) : Inv (syncStep s k qb qa).s := by
   obtain ⟨h1, h2, h3, h4⟩ := h
-  cases hr : s.ready <;> cases hb : s.batch <;> cases he : s.enabled <;> cases hf : s.flag <;>
+  cases hr : s.ready <;> cases hb : s.batch <;> cases he : s.enabled <;> cases hf : s.flag <;> cases hu : s.updateAll <;>
     simp_all [Inv] <;>
     (rcases k with (_ | _) | _ | _) <;> (by_cases hq : qb > 1) <;> (by_cases hz : qa = 0) <;>
-    simp [syncStep, hr, hb, he, hf, hq, hz]
+    simp [syncStep, hr, hb, he, hf, hu, hq, hz]
 
 /-- **startup_held**: until NGINX is ready every handler runs with the reload gate closed, and the step that
 empties the queue opens it and regenerates-and-reloads everything. -/
